@@ -23,6 +23,17 @@ ok = m_clean.group(1) == '0' and m_pat.group(1) != '0' and m_suite and '58 passe
 for f in ('patch.diff', 'demo.py', 'demo.sh', 'notes.md'):
     if os.path.exists(os.path.join(src, f)):
         shutil.copy(os.path.join(src, f), os.path.join(dst, f))
+# helper modules the demo imports from its own directory (harness.py,
+# _stubs.py, ...) travel with it
+for f in os.listdir(src):
+    if f.endswith('.py') and f not in ('demo.py',) and os.path.isfile(
+            os.path.join(src, f)):
+        shutil.copy(os.path.join(src, f), os.path.join(dst, f))
+for up in (os.path.dirname(src.rstrip('/')),):
+    for f in ('harness.py', '_stubs.py', 'common.py'):
+        if os.path.exists(os.path.join(up, f)) and not os.path.exists(
+                os.path.join(dst, f)):
+            shutil.copy(os.path.join(up, f), os.path.join(dst, f))
 notes = open(os.path.join(src, 'notes.md')).read() if os.path.exists(os.path.join(src, 'notes.md')) else ''
 meta = {
     'id': sid,
